@@ -215,3 +215,71 @@ Proof.
   - apply (prev_tree _ _ _ _ (tree_wf sh)).
   - apply (next_tree _ _ _ _ (tree_wf sh)).
 Qed.
+
+(* ================================================================== the declarations as written *)
+(* the name and value ranges of the direct declarations of a laid-out body / the texts written there *)
+Fixpoint decl_ranges (l : list node) : list (range * range) :=
+  match l with
+  | [] => []
+  | Decl ns ne _ vs ve _ :: r => ((ns, ne), (vs, ve)) :: decl_ranges r
+  | Rule _ _ _ _ _ :: r => decl_ranges r
+  end.
+Fixpoint decl_texts (l : list item) : list (str * str) :=
+  match l with
+  | [] => []
+  | SDecl _ name _ _ value _ :: r => (render_lexs name, render_lexs value) :: decl_texts r
+  | SRule _ _ _ _ _ :: r => decl_texts r
+  end.
+Definition slice2 (text : str) (rr : range * range) : str * str :=
+  (py_slice text (fst (fst rr)) (snd (fst rr)), py_slice text (fst (snd rr)) (snd (snd rr))).
+Definition shift2 (d : Z) (rr : range * range) : range * range :=
+  ((d + fst (fst rr), d + snd (fst rr)), (d + fst (snd rr), d + snd (snd rr))).
+
+(* the properties of props_spec carry exactly those ranges, shifted to the body start *)
+Lemma props_items_ranges frag from : forall l before,
+  map (fun cp => (cp_name cp, cp_value cp)) (fst (props_items frag from before l)) = map (shift2 from) (decl_ranges l).
+Proof.
+  induction l as [|n r IH]; intros before; [reflexivity|].
+  destruct n as [ns ne colon vs ve semi|ss se brace ch close]; cbn [props_items decl_ranges].
+  - specialize (IH (from + semi + 1)). destruct (props_items frag from (from + semi + 1) r) as [ps b].
+    cbn [fst map] in *. rewrite IH. reflexivity.
+  - apply IH.
+Qed.
+
+Theorem props_spec_ranges frag from l :
+  map (fun cp => (cp_name cp, cp_value cp)) (props_spec frag from l None) = map (shift2 from) (decl_ranges l).
+Proof.
+  unfold props_spec. pose proof (props_items_ranges frag from l from) as H.
+  destruct (props_items frag from from l) as [ps b]. cbn [fst] in H. rewrite app_nil_r. exact H.
+Qed.
+
+(* in the text of an item list laid out at the offset of its first character, the ranges of the direct
+   declarations slice to the names and values as written *)
+Theorem decl_ranges_text : forall l (pre post : str),
+  map (slice2 (pre ++ render_items l ++ post)) (decl_ranges (lay_items (zlen pre) l)) = decl_texts l.
+Proof.
+  induction l as [|x r IH]; intros pre post; [reflexivity|].
+  cbn [lay_items]. unfold render_items. cbn [flat_map]. fold (render_items r).
+  assert (Etail : map (slice2 (pre ++ (render_item x ++ render_items r) ++ post))
+                      (decl_ranges (lay_items (zlen pre + ilen x) r)) = decl_texts r).
+  { rewrite <- app_assoc. rewrite (app_assoc pre).
+    replace (zlen pre + ilen x) with (zlen (pre ++ render_item x)) by (rewrite zlen_app; reflexivity).
+    apply IH. }
+  destruct x as [g1 name g2 g3 value g4|g1 sel g2 body g3].
+  - cbn [lay_item]. cbv zeta. cbn [decl_ranges decl_texts map]. rewrite Etail. f_equal.
+    unfold slice2. cbn [fst snd render_item].
+    f_equal.
+    + replace (pre ++ ((render_gap g1 ++ render_lexs name ++ render_gap g2 ++ c_colon ::
+                         render_gap g3 ++ render_lexs value ++ render_gap g4 ++ [c_semi]) ++ render_items r) ++ post)
+        with ((pre ++ render_gap g1) ++ render_lexs name ++
+              (render_gap g2 ++ c_colon :: render_gap g3 ++ render_lexs value ++ render_gap g4 ++ [c_semi]) ++ render_items r ++ post)
+        by (repeat (rewrite <- app_assoc || rewrite <- app_comm_cons); reflexivity).
+      apply py_slice_mid; rewrite ?zlen_app; lia.
+    + replace (pre ++ ((render_gap g1 ++ render_lexs name ++ render_gap g2 ++ c_colon ::
+                         render_gap g3 ++ render_lexs value ++ render_gap g4 ++ [c_semi]) ++ render_items r) ++ post)
+        with ((pre ++ render_gap g1 ++ render_lexs name ++ render_gap g2 ++ c_colon :: render_gap g3) ++ render_lexs value ++
+              (render_gap g4 ++ [c_semi]) ++ render_items r ++ post)
+        by (repeat (rewrite <- app_assoc || rewrite <- app_comm_cons); reflexivity).
+      apply py_slice_mid; rewrite ?zlen_app, ?zlen_cons, ?zlen_app; lia.
+  - rewrite lay_item_rule. cbv zeta. cbn [decl_ranges decl_texts]. exact Etail.
+Qed.
